@@ -619,12 +619,20 @@ package engine
 //@ pred matchOk(m Match, d Str, f Str) := 0 <= m.Offset.Start && m.Offset.Start < m.Offset.End && m.Offset.End <= len(d) && m.Value == ssub(d, m.Offset.Start, m.Offset.End) && m.Filename == f
 //@    && (asciiText(d) ==> m.Line.Start == lineOf(d, m.Offset.Start) && m.Line.End == lineOf(d, m.Offset.End) && m.Column.Start == colOf(d, m.Offset.Start) && m.Column.End == colOf(d, m.Offset.End))
 
-//@ func findMatches [C03 C09 C10]
+//@ func findMatches [C03 C09 C10 C04]
 //@   requires reader != nil && rdInv(reader) && skip >= 0 && take >= 0 && last >= 0
 //@   let d := rdData(reader)
 //@   modifies inferred
 //@   ensures each: forall k :: { result[k] } 0 <= k && k < len(result) ==> matchOk(result[k], d, filename)
 //@   ensures ordered: forall k :: { result[k] } { result[k + 1] } 0 <= k && k + 1 < len(result) ==> result[k].Offset.End <= result[k + 1].Offset.Start && result[k + 1].MatchNumber == result[k].MatchNumber + 1
+//@   ensures lastwindow: last != 0 ==> len(result) <= last [C04]
+//@   ensures takewindow: !all && last == 0 ==> len(result) <= take [C04]
+//@   ensures skipfirst: len(result) > 0 ==> result[0].MatchNumber > skip [C04]
+//@   ensures skipexact: last == 0 && len(result) > 0 ==> result[0].MatchNumber == skip + 1 [C04]
+//@   loop 1 invariant window: (last != 0 ==> len(matches.store) <= last) && (last == 0 ==> len(matches.store) == max(0, matchNumber - skip)) && (!all ==> matchNumber <= skip + take) [C04]
+//@   loop 2 invariant window: (last != 0 ==> len(matches.store) <= last) && (last == 0 ==> len(matches.store) == max(0, matchNumber - skip)) && (!all ==> matchNumber <= skip + take) [C04]
+//@   loop 1 invariant first: last == 0 && len(matches.store) > 0 ==> matches.store[0].MatchNumber == skip + 1 [C04]
+//@   loop 2 invariant first: last == 0 && len(matches.store) > 0 ==> matches.store[0].MatchNumber == skip + 1 [C04]
 //@   loop 1 invariant scan: rdInv(reader) && rdData(reader) == d && 0 <= fileOffset && fileOffset < reader.size && startsAt(d, fileOffset, lineNumber, columnNumber) && matchNumber >= 0
 //@   loop 1 invariant queue: matches != nil && fresh(matches) && (matches.store.ref == 0 || fresh(matches.store))
 //@   loop 1 invariant each: forall k :: { matches.store[k] } 0 <= k && k < len(matches.store) ==> matchOk(matches.store[k], d, filename) && matches.store[k].Offset.End <= fileOffset && matches.store[k].MatchNumber <= matchNumber && matches.store[k].MatchNumber > skip
